@@ -138,6 +138,7 @@ def block_contract(k):
                  requires=lambda S, a: [("the basis flag of the slot is still False when its block starts (prologue)", z3.Not(B0(z3.IntVal(k))))],
                  ensures=ensures, setup=setup, region=region, raises=lambda S, a, e: z3.BoolVal(False))
     c.region_name = "reading %d" % k
+    c.live_ins = ("expr", "nodes", "c")
     return c
 
 
@@ -194,6 +195,7 @@ def tail_contract():
     c = Contract("string_to_node", {"expr": mk(0), "nodes": mk(1), "c": mk(2), "all_in_basis": mk(3), "evalf": T.bool, "check_ops": T.bool},
                  requires=requires, ensures=ensures, setup=setup, region=region, raises=lambda S, a, e: z3.BoolVal(False))
     c.region_name = "selection"
+    c.live_ins = ("expr", "nodes", "c")
     return c
 
 
